@@ -363,7 +363,10 @@ func harnessAPI(e *Exec, g *G, fn *ssa.Function, args []Value) (Value, bool) {
 	case "verifNoop":
 		return nil, true
 	case "envRPC":
-		return Tuple{Ptr(nil), Ptr(nil)}, true
+		// distinct opaque client / server objects (only their identity matters to the models)
+		c, sv := new(Value), new(Value)
+		*c, *sv = Struct{}, Struct{}
+		return Tuple{Ptr(c), Ptr(sv)}, true
 	case "ctxTimeoutCount":
 		return tt.BV(64, uint64(len(e.ctxTimeouts))), true
 	case "strLen":
